@@ -34,6 +34,7 @@ _add("C08", "bounded symbolic verification in exact algebraic arithmetic (cos(pi
 _add("C13", "bounded symbolic verification in H^2: origin_to targets, point_along with a symbolic signed distance t = ln E (exact side, distance and geodesic), reaching q along the unit tangent, the hyperbolic law of cosines for TangentVector.angle (arccos/arctan carried by cosine and sine), regular polygons with 3, 4, 6 sides (5, 7, 8 attempted in thorough) with symbolic interior angle and exact cos(pi/n)")
 _add("C18", "bounded symbolic verification of indefinite_orthogonalize (signatures p+q<=3), find_isometry (null-space stub), diagonalize_form (spectral eigh stub, n<=3), svd_kernel (SVD stub, rank patterns up to 3x3), circle_through / sphere_through and the arc-ordering helpers on arctan2 angles modelled as plane directions")
 _add("C14", "bounded symbolic verification of circle / sphere parameters in both conformal models: endpoints on the reported circle, orthogonality to the boundary, reported angles (arctan2 values as plane directions) point to the endpoints and bound the arc inside the model, degrees flag, enum vs string model, horospheres, subspace spheres (known finding for planes in H^3 reported as KNOWN-FINDING)")
+_add("C15", "bounded symbolic verification with a nondeterministic eigen-decomposition stub (arbitrary eigenvalue order, arbitrary eigenvector scale): loxodromic fixed points (attracting first, ideal, fixed) and elliptic fixed points for both homogeneous representative signs, rejection of non-reflections; H^2; reflection_across / from_reflection round trip only attempted in thorough")
 NA = {}
 def main():
     checks = []
